@@ -57,6 +57,12 @@ def main(argv):
         print("unknown property %s" % prop)
         return 2
     os.makedirs(REPLAY, exist_ok=True)
+    for f in os.listdir(REPLAY):
+        if f.startswith(prop + "-"):
+            try:
+                os.remove(os.path.join(REPLAY, f))
+            except OSError:
+                pass
     rep = Report(prop)
     fatal = None
     try:
